@@ -4,7 +4,7 @@ from contracts import sigalg, auth, specs
 ID = "C07"
 TARGETS = ["paramiko.transport.Transport._verify_key", "paramiko.auth_handler.AuthHandler._parse_userauth_request"]
 MAX_PATHS = 30000
-REPLAY = {"*": "c07.replay_sigalg"}
+REPLAY = {"*": "c07.replay_sigalg", "_generate_key_from_request": "c07.replay_sigalg"}
 
 
 def setup(E):
@@ -21,6 +21,34 @@ def setup(E):
     E.contracts["paramiko.auth_handler.AuthHandler._send_auth_result"]["requires"][
         "publickey_success_only_if_signature_names_the_declared_algorithm"] = (
         "implies(result == 0 and method == 'publickey' and ghost('sig_wellformed'), ghost('sig_alg') == ghost('declared_alg'))")
+    # the only place the server checks that the DECLARED algorithm is one it has enabled: a key comes back only for such an
+    # algorithm, on every request (the check is not skipped for a key blob seen before)
+    AHq = "paramiko.auth_handler.AuthHandler."
+    E3 = type(E)()
+    E3.auto_opaque = True
+    E3.opaque_iter = {"NameList": "str"}
+    E3.declare_class("paramiko.auth_handler.AuthHandler", {"transport": "obj:Transport"})
+    # (preferred_pubkeys, a property computed from the configuration on every read, is modelled as a field holding the
+    # list that is enabled at the time of the call)
+    E3.declare_class("paramiko.transport.Transport", {"_key_info": "opaque:KeyTable", "preferred_pubkeys": "opaque:NameList"})
+    E3.contract("NameList.__contains__", argnames=["self", "x"], returns="bool",
+                cases=[dict(name="membership", when="True", result="fn('in_list', 'bool', opaque_id(self), x)")])
+    E3.contract("KeyTable.__getitem__", argnames=["self", "k"], returns="opaque:KeyCtor", raises={"KeyError": "True"})
+    E3.opaque_contracts["KeyCtor"] = dict(argnames=["self", "m"], returns="opaque:PKey", raises={"SSHException": "True", "Exception": "True"})
+    E3.contract(AHq + "_log", params={"level": "int", "msg": "str"}, returns="none", modifies=[])
+    from contracts import message as _msg
+    _msg.declare(E3)
+    c3 = dict(params={"algorithm": "str", "keyblob": "bytes"}, returns="opt[opaque:PKey]", modifies=[],
+              raises={"SSHException": "True", "Exception": "True", "KeyError": "True"},
+              ensures={"a_key_is_returned_only_for_a_declared_algorithm_that_is_enabled":
+                       "implies(notnone(result), fn('in_list', 'bool', opaque_id(self.transport.preferred_pubkeys),"
+                       " fn('str_replace', 'str', algorithm, '-cert-v01@openssh.com', '')))"})
+    global TARGETS
+    TARGETS = [t for t in TARGETS if not (isinstance(t, tuple) and t[1] == "enabled-algorithm")]
+    TARGETS.append((AHq + "_generate_key_from_request", "enabled-algorithm", dict(c3, **{
+        "+replace": True, "+contracts": dict(E3.contracts), "+fields": {k: dict(d["fields"]) for k, d in E3.classdecl.items()},
+        "+engine": {"auto_opaque": True, "opaque_iter": dict(E3.opaque_iter), "ghost_types": dict(E3.ghost_types),
+                    "opaque_contracts": dict(E3.opaque_contracts)}})))
 
 CLAIMED = True
 LEVEL_TEXT = ("Proof on the real callers: Transport._verify_key returns normally only if verify_ssh_sig returned True and the "
@@ -30,6 +58,7 @@ LEVEL_TEXT = ("Proof on the real callers: Transport._verify_key returns normally
               "call-site precondition over ghost state set by the verify contract.")
 LEVEL_NOTE = ("Assumed: verify_ssh_sig is an uninterpreted predicate of (key, data, blob) that may also raise; that the "
               "negotiated / declared algorithm is one the verifying side enabled is negotiation's business (C05) and "
-              "_generate_key_from_request's check against preferred_pubkeys (read, not verified here). Malformed blobs "
+              "_generate_key_from_request's check against preferred_pubkeys (now a target: a key comes back only for an enabled "
+              "declared algorithm, on every request). Malformed blobs "
               "(length field beyond the blob) are left to the key's own verification.")
 TECHNIQUE = "deductive: postcondition / call-site precondition over ghost signature metadata, uninterpreted str.replace, z3"
